@@ -11,7 +11,7 @@ open Lm.Core
 /-- the shape of every notification: system flag set, no payload, the given topic and sender, never auto-freed -/
 theorem C19_notification_shape (s : St) (recipient sender : Option ModId) (topic : String) (r : ModId) (md : Mod) (q : List Msg)
     (hm : (match sender with | some m => s.updMod m (fun x => { x with sent := x.sent + 1 }) | none => s).mods[r]? = some md)
-    (he : md.state = .running ∨ md.state = .paused) (hp : md.pipe = some q) (hroom : q.length < pipeCap) :
+    (he : md.state = .running ∨ md.state = .paused) (hp : md.pipe = some q) (hroom : q.length + md.pipeSkip < pipeCap) :
     ∃ c md', (tellSystem s (some r) sender topic).mods[r]? = some md' ∧ md'.pipe = some (q ++ [c]) ∧
       c.sys = true ∧ c.payload = 0 ∧ c.topic = some topic ∧ c.sender = sender := by
   unfold tellSystem tellPubsub
@@ -29,7 +29,7 @@ theorem C19_only_running_or_paused (s : St) (msg : Msg) (key : TellKey) (r : Mod
 `send_msg` never carry the system flag -/
 theorem C19_user_messages_never_system (s : St) (m r : ModId) (md : Mod) (q : List Msg) (p : Nat) (topic : Option String)
     (hm : (s.updMod m fun x => { x with sent := x.sent + 1 }).mods[r]? = some md) (he : md.state = .running ∨ md.state = .paused)
-    (hp : md.pipe = some q) (hroom : q.length < pipeCap) :
+    (hp : md.pipe = some q) (hroom : q.length + md.pipeSkip < pipeCap) :
     ∃ c md', (sendMsg s m (some r) topic p false).mods[r]? = some md' ∧ md'.pipe = some (q ++ [c]) ∧ c.sys = false ∧ c.payload = p := by
   unfold sendMsg tellPubsub
   simp only [Bool.false_eq_true, if_false]
